@@ -67,6 +67,10 @@ def bounded_by_param(bi, operand, param, depth=0):
             if a or b:
                 return True
             return None
+        if n == "max" and len(t.args) == 2 and any(x.const_int() is not None and x.const_int() <= 1 for x in t.args):
+            # max(capacity, 1): "at most max(limit, 1) messages" is exactly the bound this rule states
+            other = [x for x in t.args if not (x.const_int() is not None and x.const_int() <= 1)]
+            return bounded_by_param(bi, other[0], param, depth + 1) if other else None
         if n in ("max", "saturating_add", "wrapping_add", "checked_add", "add", "saturating_mul", "mul") and len(t.args) >= 2:
             a, b = bounded_by_param(bi, t.args[0], param, depth + 1), bounded_by_param(bi, t.args[1], param, depth + 1)
             if a or b:
@@ -113,20 +117,23 @@ def r15_1(prog, out):
             out.violation(key, bi.loc(pushes[0]), "the pop loop has no size test: a pull returns the whole backlog regardless of max_messages")
             continue
         cbb, ci, cs = cmps[0]
-        esc = bi.cfg.escapes(pushes[0], {cbb}, iteration_exits(bi, pushes[0]))
-        if esc is not None:
-            out.violation(key, bi.loc(esc[-1]), "a message can be pushed to the result and the loop continue without the size test")
-        elif cs.rv.j["op"] not in ("Ge", "Eq", "Gt"):
-            out.undecided(key, bi.loc(cbb), "size test uses %s" % cs.rv.j["op"])
+        pops = {e.bb for e in effs}
+        # between a push and the next pop the size test is passed, whether it sits at the end of the body (`if len >= cap
+        # { break }`) or in the loop condition (`while len < cap`)
+        esc = bi.cfg.path(pushes[0], pops, avoid={cbb}) if pushes[0] not in pops else None
+        if esc is not None and len(esc) > 1:
+            out.violation(key, bi.loc(esc[-1]), "a message can be pushed to the result and the next one popped without the size test in between")
         else:
-            # the true arm leaves the loop
             sw = b.blocks[cbb].term
             arms = dict(sw.arms) if sw.k == "switch" else {}
-            true_bb = sw.otherwise if sw.k == "switch" else None
+            true_bb, false_bb = (sw.otherwise, arms.get(0)) if sw.k == "switch" else (None, None)
+            op = cs.rv.j["op"]
+            # which arm is taken when len(result) has reached the capacity
+            stop_bb = {"Ge": true_bb, "Eq": true_bb, "Gt": true_bb, "Lt": false_bb, "Le": false_bb, "Ne": false_bb}.get(op)
             loops = bi.cfg.in_loop(cbb)
-            leaves = true_bb is not None and loops and not bi.cfg.can_reach(true_bb, pushes[0])
-            if leaves and cs.rv.j["op"] != "Gt":
-                out.holds(key, bi.loc(cbb), "after every push `len(result) >= capacity` ends the loop")
+            leaves = stop_bb is not None and loops and not any(bi.cfg.can_reach(stop_bb, p) for p in pops)
+            if leaves and op in ("Ge", "Eq", "Lt", "Ne"):
+                out.holds(key, bi.loc(cbb), "between two pops the loop goes on only while len(result) < capacity")
             elif leaves:
                 out.violation(key, bi.loc(cbb), "the loop ends only when len(result) > capacity: one message more than the limit is returned")
             else:
